@@ -402,7 +402,8 @@ def run(ctx):
         scheds += behaviours_to_scheds(ctx, prefix, nsim)
     for i, s in enumerate(scheds):
         s["name"] = "tlc-%d" % i
-    lib = library(quick) + [boundary_family(b) for b in (10, 100, 1000)]
+    # the long history first: its trace is one big chunk, TLC should start on it right away
+    lib = [boundary_family(b) for b in (1000, 100, 10)] + library(quick)
     inp = {"scheds": lib + scheds, "enums": enums(quick), "random": 40 if quick else 600,
            "node": {"runs": 5 if quick else 24, "steps": 12 if quick else 20, "headLimit": 0, "offsets": 3}}
 
@@ -410,8 +411,9 @@ def run(ctx):
     rows_wal, rows_node, fsinfo = execute(ctx, inp)
 
     # ---- 5. TLC judges the observed traces ---------------------------------------------------------
-    v1 = core.validate_traces(ctx, "TMWalTrace", rows_wal, max_events=1500, timeout=1800, label="wal")
-    v2 = core.validate_traces(ctx, "TMWalTrace", rows_node, max_events=800, timeout=1800, label="node")
+    # one pool for both files: no barrier between them (every run starts with its own Reset line)
+    v1 = core.validate_traces(ctx, "TMWalTrace", rows_wal + rows_node, max_events=1500, timeout=1800, label="wal+node")
+    v2 = {"viol": [], "drift": [], "runs": 0}
 
     # ---- 6. verdict -----------------------------------------------------------------------------------
     verdict = core.Verdict(ctx)
